@@ -8,6 +8,12 @@ M=$WT/MUTATIONS/$N
 OUT=/verif/seeded/$SID
 export CARGO_NET_OFFLINE=true
 log() { echo "[$SID] $*"; }
+CACHE=/tmp/stage1_$SID.txt
+if [ -f $CACHE ] && [ -z "$STAGE1_ONLY" ]; then
+  # stage 1 was run ahead of time (STAGE1_ONLY=1), reuse its verdicts
+  source $CACHE
+  log "(cached) build default=$b1 hooks=$b2 ; suite: $tests ; demo with mutation: $demo_mut ; without: $demo_clean"
+else
 cd $WT || exit 9
 git checkout -q -- . ; rm -f tests/demo.rs
 git apply --check $M/patch.diff || { log "patch does not apply"; exit 1; }
@@ -24,6 +30,9 @@ git checkout -q -- .
 demo_clean=pass; timeout 900 cargo test --offline $DEMOARGS --test demo >/tmp/demo_$SID.clean.log 2>&1 || demo_clean=fail
 rm -f tests/demo.rs
 log "demo with mutation: $demo_mut ; without: $demo_clean"
+printf 'b1=%q\nb2=%q\ntests=%q\ndemo_mut=%q\ndemo_clean=%q\n' "$b1" "$b2" "$tests" "$demo_mut" "$demo_clean" > $CACHE
+fi
+[ -n "$STAGE1_ONLY" ] && exit 0
 # run the checks against the mutation in /repo
 cd /repo && git diff --quiet || { log "/repo dirty, abort"; exit 9; }
 git apply $M/patch.diff || { log "patch does not apply to /repo"; exit 1; }
